@@ -34,4 +34,4 @@ def main(run: common.Run):
 
 
 if __name__ == "__main__":
-    common.guarded_main("C04", "proof", main)
+    common.guarded_main("C04", "proof", main, generic_replay=True)
